@@ -153,6 +153,10 @@ def validate(seed, tier):
                 inp.update(mode=mode, tol=tol)
                 runner.concrete_check('compress', inp)
                 n += 1
+                inp = concrete.random_state_input(rng, 'mps', L, Dmax=3, integer=True, qrange=(0, 1))
+                inp.update(mode=mode, tol=tol)
+                runner.concrete_check('compress', inp)
+                n += 1
     return dict(concrete_inputs_checked=n)
 
 
